@@ -53,6 +53,25 @@ package font
 //@   modifies it.pos1; it.pos2
 //
 // Format 4.
+// Constructor: establishes the part of segsSorted that Lookup and the iterator rely on for memory safety (every
+// resolved index array is exactly as long as its segment), for any subtable the generated parser can return
+// (the four per-segment arrays have the same length; everything else is arbitrary file content). Also C09: no panic.
+//@ spec segIndexWF(s cmap4, n int) bool = forall(k, 0, n, implies(s[k].indexes != nil, s[k].start <= s[k].end && len(s[k].indexes) == int(s[k].end-s[k].start)+1))
+//
+//@ func newCmap4 C09c C11
+//@   mode int
+//@   requires [parsed-shape] len(cm.StartCode) == len(cm.EndCode) && len(cm.IdDelta) == len(cm.EndCode) && len(cm.IdRangeOffsets) == len(cm.EndCode)
+//@   ensures [index-arrays-cover-segments] implies(result1 == nil, segIndexWF(result0, len(result0)) && len(result0) == len(cm.EndCode))
+//@   modifies nothing
+//@   loop 1 invariant [shape] len(out) == segCount && segCount == len(cm.EndCode) && fresh(out)
+//@   loop 1 invariant [done-so-far] segIndexWF(out, rangeindex+1)
+//@   loop 2 invariant [indexes] entry.start <= entry.end && len(entry.indexes) == int(entry.end-entry.start)+1 && entry.indexes != nil && fresh(entry.indexes) && 0 <= indexStart && 2*(indexStart+len(entry.indexes)) <= len(cm.GlyphIDArray) && indexStart <= 1<<20
+//@   assert_at call Uint16#1 : [j-range] 0 <= j && j < len(entry.indexes)
+//@   assert_at call Uint16#1 : [len-bound] len(entry.indexes) <= 65536
+//@   assert_at call Uint16#1 : [index] index == indexStart+j
+//@   assert_at call Uint16#1 : [in-glyph-array] 2*index+2 <= len(cm.GlyphIDArray)
+//@   loop 2 invariant [outer] len(out) == segCount && segCount == len(cm.EndCode) && fresh(out) && segIndexWF(out, i) && 0 <= i && i < segCount
+//
 //@ spec segsSorted(s cmap4) bool = forall(k, 0, len(s), s[k].start <= s[k].end && implies(s[k].indexes != nil, len(s[k].indexes) == int(s[k].end-s[k].start)+1) && forall(l, k+1, len(s), s[k].end < s[l].start))
 //@ func cmap4.Lookup C11
 //@   mode bv
